@@ -437,6 +437,56 @@ fn cache_consistency(world: &World, ctx: &InsertionContext, report: &mut Report)
     errs
 }
 
+/// C05, "after every single insertion": route-level caches of every route == recomputation of a stripped copy of that route.
+/// (Solution-level aggregates are rebuilt by the library when a heuristic finishes; they are judged at every handover.)
+fn route_caches_after_insertion(goal: &GoalContext, ctx: &InsertionContext) -> Vec<(String, String)> {
+    let mut errs = vec![];
+    for rc in ctx.solution.routes.iter() {
+        let digest = |rc: &RouteContext| -> Vec<String> {
+            let (mut d, _) = rc.state().verif_digest();
+            d.extend(rc.route().tour.all_activities().map(|a| format!("sched:{}-{}", a.schedule.arrival, a.schedule.departure)));
+            d
+        };
+        let cached = digest(rc);
+        let mut copy = rc.deep_copy();
+        copy.verif_reset_state();
+        let mut last = vec![];
+        for _ in 0..3 {
+            if let Err(p) = catch(|| goal.accept_route_state(&mut copy)) {
+                errs.push((format!("insertion:recompute-panic@{}", panic_site(&p)), p));
+                break;
+            }
+            let now = digest(&copy);
+            if now == last {
+                break;
+            }
+            last = now;
+        }
+        if !last.is_empty() && last != cached {
+            let diff: Vec<String> = cached.iter().zip(last.iter()).filter(|(a, b)| a != b).map(|(a, b)| format!("cached {a} vs recomputed {b}")).take(3).collect();
+            let vid = rc.route().actor.vehicle.dimens.get_vehicle_id().cloned().unwrap_or_default();
+            errs.push(("insertion:route-cache-differs".to_string(), format!("route '{vid}' (entries {} vs {}): {diff:?}", cached.len(), last.len())));
+        }
+    }
+    errs
+}
+
+type InsertionSink = std::rc::Rc<std::cell::RefCell<(u64, Vec<(String, String)>)>>;
+
+fn observe_insertions(goal: Arc<GoalContext>) -> InsertionSink {
+    let sink: InsertionSink = Default::default();
+    let s = sink.clone();
+    verif_observer::install(Box::new(move |ctx: &InsertionContext| {
+        let errs = route_caches_after_insertion(goal.as_ref(), ctx);
+        let mut b = s.borrow_mut();
+        b.0 += 1;
+        if b.1.len() < 8 {
+            b.1.extend(errs);
+        }
+    }));
+    sink
+}
+
 fn is_c05(ctx: &RunCtx) -> bool {
     ctx.id == "C05"
 }
@@ -491,7 +541,17 @@ fn explore(ctx: &RunCtx, world: &World, report: &mut Report) {
     let state_cap = ctx.tier.pick(400, 3000);
     let ops_for = || operators(&world.core, &world.env);
     let names: Vec<String> = ops_for().into_iter().map(|(n, _)| n).collect();
-    for (root_name, root) in world.roots() {
+    let root_sink = if c05 { Some(observe_insertions(world.core.goal.clone())) } else { None };
+    let roots = world.roots();
+    if let Some(sink) = root_sink {
+        verif_observer::uninstall();
+        let (n, errs) = std::mem::take(&mut *sink.borrow_mut());
+        report.add_count("insertions_observed", n);
+        for (key, what) in errs {
+            report.violation(Violation::new(format!("{key}:{}", world.problem.name), what, json!({"family": world.family, "problem": world.problem.name, "root": "*", "history": []})));
+        }
+    }
+    for (root_name, root) in roots {
         let mut seen: HashSet<u64> = HashSet::new();
         let mut frontier: VecDeque<(Vec<(usize, u64)>, InsertionContext)> = VecDeque::new();
         seen.insert(fnv64(canonical(&root).as_bytes()));
@@ -511,10 +571,22 @@ fn explore(ctx: &RunCtx, world: &World, report: &mut Report) {
                     let rctx = world.refinement_ctx(&state);
                     let parent_before = if c05 { String::new() } else { full_digest(&state) };
                     install_policy(PlanPolicy::Sequential);
+                    let sink = if c05 { Some(observe_insertions(world.core.goal.clone())) } else { None };
                     let next = catch(|| ops[oi].1.search(&rctx, &state));
                     uninstall_plan();
                     let mut h = hist.clone();
                     h.push((oi, policy));
+                    if let Some(sink) = sink {
+                        verif_observer::uninstall();
+                        let (n, errs) = std::mem::take(&mut *sink.borrow_mut());
+                        report.add_count("insertions_observed", n);
+                        let mut seen_keys = HashSet::new();
+                        for (key, what) in errs {
+                            if seen_keys.insert(key.clone()) {
+                                report.violation(Violation::new(format!("{key}:{}", world.problem.name), format!("during {}: {what}", names[oi]), scen(world, &root_name, &h, &names)));
+                            }
+                        }
+                    }
                     let next = match next {
                         Ok(n) => n,
                         Err(p) => {
